@@ -137,6 +137,8 @@ def doneOK (K : Ctx) (a : TV) : Bool :=
    | none => true) &&
   -- end of input: no lexeme that was open before this step stays open
   (a.P.nonzero || a.opn.isNone || a.fresh || K.exc0) &&
+  -- a step that reads the end of input and rewinds has found no event
+  (a.rew == 0 || a.P.nonzero || (!a.sld && a.opn.isNone)) &&
   -- the byte before, when the step started in the sign state: it is '/', and now followed by '/' or '*'
   (!K.sign0 || decide (2 ≤ a.rew) || within a.P [47, 42]) &&
   -- the byte of this step
@@ -201,7 +203,7 @@ def silentOK (c : Code St) (st : St) : Bool :=
 /-- facts about the states that can be on the step stack / that the scanner starts in -/
 def globalOK : Bool :=
   St.all.all (fun s => isStackable s == stackableC.contains s) &&
-  stackableC.all (fun s => !inComment s && !isSign s &&
+  stackableC.all (fun s => !inComment s && !isSign s && !eofExc s &&
     match certs.cert s with
     | some ce => ce.opn.isNone
     | none => false) &&
